@@ -27,6 +27,8 @@ type routeCall struct {
 	GRPC      bool        `json:"grpc"`
 	MD        [][2]string `json:"md"`
 	Extractor bool        `json:"extractor"` // use WithRouterMetaExtractor instead of metainfo
+	// Decoy: metainfo values put into the context of a call that uses a custom extractor: they must be ignored
+	Decoy [][2]string `json:"decoy"`
 }
 
 type routeCase struct {
@@ -191,7 +193,14 @@ func runRoute(raw json.RawMessage) (interface{}, error) {
 		}
 		var router *xdssuite.XDSRouter
 		if call.Extractor {
-			router = xdssuite.NewXDSRouter(xdssuite.WithRouterMetaExtractor(func(context.Context) map[string]string { return md }))
+			for _, kv := range call.Decoy {
+				ctx = metainfo.WithValue(ctx, kv[0], kv[1])
+			}
+			ext := md
+			if len(ext) == 0 && len(call.Decoy)%2 == 1 {
+				ext = nil // an extractor may also return a nil map
+			}
+			router = xdssuite.NewXDSRouter(xdssuite.WithRouterMetaExtractor(func(context.Context) map[string]string { return ext }))
 		} else {
 			router = xdssuite.NewXDSRouter()
 		}
